@@ -393,7 +393,7 @@ async fn run_scenario(sc: Value, sock: PathBuf, meaning: Map<String, Value>) -> 
     cfg.extended_monitoring = b(&sc, "extmon");
     // "transport": "tcp" | "ws": the library connects over the server's TCP / WebSocket endpoint
     let transport = sc["transport"].as_str().unwrap_or("unix").to_owned();
-    let port = std::net::TcpListener::bind("127.0.0.1:0").and_then(|l| l.local_addr()).map(|a| a.port()).unwrap_or(0);
+    let port = crate::util::private_port();
     if transport == "tcp" {
         cfg.tcp_endpoint = Some(worterbuch::Endpoint { tls: false, bind_addr: [127, 0, 0, 1].into(), port });
         cfg.tcp_disabled = false;
